@@ -808,8 +808,10 @@ func (r *cliRun) stepCall(st *cStep) {
 			ev["status"], ev["fields"], ev["blen"], ev["bodyok"] = res.StatusCode(), fl, len(body), patOK(4, sid, 0, body)
 		}
 		r.emit(ev)
-		// the request is resolved: Request and Response are the caller's again, and a caller with a pool hands them
-		// back at once.  Whatever the connection still does with them from here on is a second owner (C19).
+		// the request is resolved: as RoundTrip does, wait until neither loop is working on the Ctx (takeBack); from
+		// then on Request and Response are the caller's again, and a caller with a pool hands them back at once.
+		// Whatever the connection still does with them after that is a second owner (C19).
+		http2.VerifTakeBack(ctx)
 		fasthttp.ReleaseRequest(req)
 		fasthttp.ReleaseResponse(res)
 		r.resolvedSeen.Add(1)
